@@ -234,6 +234,8 @@ Definition all_at (off : Z) (msgs : list message) : list omsg := map (fun m => (
      its default 0 whatever attributes bit 3 says.
    [pymessage] is the Python object, [py_encode_message] / [py_decoded] the two code paths as they are NOW. *)
 Record pymessage := mk_pymessage { pm_msg : message; pm_tstype : Z }.
+(* the documented invariant of the type (common.py:650 ":ivar int timestamp_type: Message timestamp type, always 0") *)
+Definition wf_pymessage (pm : pymessage) : bool := pm_tstype pm =? 0.
 Definition py_encode_message (now : Z) (pm : pymessage) : res (list Z) := encode_message now (pm_msg pm).
 Definition py_decoded (m : message) : pymessage := mk_pymessage m 0.
 Definition py_decoded_set (r : dres) : list (Z * pymessage) := map (fun om => (fst om, py_decoded (snd om))) (fst r).
